@@ -338,7 +338,53 @@ pub fn guard<T>(f: impl FnOnce() -> T) -> Result<T, String> {
 }
 
 // ---------------------------------------------------------------------------
-// in-flight cases: 4 words per worker slot (family ordinal + 1, case index, start in ms, spare)
+// in-flight cases: 4 words per worker slot (family ordinal + 1, case index, start in ms (wall),
+// CPU time in ns that the worker thread had consumed when the case started)
+//
+// The hang watchdog decides on CPU TIME CONSUMED BY THE WORKER THREAD inside one case, never on
+// wall-clock time: on a loaded machine (or under an interpreter) a case may take arbitrarily long
+// on the wall clock without the code under test doing anything wrong.
+
+#[repr(C)]
+struct Timespec {
+    tv_sec: i64,
+    tv_nsec: i64,
+}
+
+extern "C" {
+    fn clock_gettime(clk: i32, ts: *mut Timespec) -> i32;
+    fn pthread_self() -> usize;
+    fn pthread_getcpuclockid(thread: usize, clk: *mut i32) -> i32;
+}
+
+/// CPU-time clock id (+1; 0 = none) of the worker thread that owns each slot
+static WORKER_CLOCKS: [AtomicU64; SLOTS] = [const { AtomicU64::new(0) }; SLOTS];
+
+fn cpu_ns_of(clk: i32) -> Option<u64> {
+    if cfg!(miri) {
+        return None;
+    }
+    let mut ts = Timespec { tv_sec: 0, tv_nsec: 0 };
+    if unsafe { clock_gettime(clk, &mut ts) } != 0 {
+        return None;
+    }
+    Some(ts.tv_sec as u64 * 1_000_000_000 + ts.tv_nsec as u64)
+}
+
+/// CPU time consumed so far by the calling thread (CLOCK_THREAD_CPUTIME_ID = 3)
+fn own_cpu_ns() -> u64 {
+    cpu_ns_of(3).unwrap_or(0)
+}
+
+fn register_worker_clock(slot: usize) {
+    if cfg!(miri) {
+        return;
+    }
+    let mut clk: i32 = 0;
+    if unsafe { pthread_getcpuclockid(pthread_self(), &mut clk) } == 0 {
+        WORKER_CLOCKS[slot].store(clk as u32 as u64 + 1, Ordering::Relaxed);
+    }
+}
 
 pub const SLOTS: usize = 64;
 const WORDS: usize = 4;
@@ -376,6 +422,9 @@ fn map_shared(path: &str, len: usize) -> Option<&'static [AtomicU64]> {
 }
 
 fn spawn_hang_watchdog(cfg: &Config, names: Vec<String>, start: Instant) {
+    if cfg!(miri) {
+        return; // no thread CPU clocks under the interpreter; the driver bounds the Miri stage as a whole (inconclusive)
+    }
     let slots = inflight(cfg.inflight_file.as_deref());
     let cfg = cfg.clone();
     std::thread::spawn(move || loop {
@@ -392,6 +441,22 @@ fn spawn_hang_watchdog(cfg: &Config, names: Vec<String>, start: Instant) {
                 continue;
             }
             if now.saturating_sub(t0) as f64 / 1000.0 > cfg.hang_s {
+                // wall-clock time alone proves nothing: how much CPU time did the worker burn inside this case?
+                let cpu0 = slots[w * WORDS + 3].load(Ordering::Relaxed);
+                let clk = WORKER_CLOCKS[w].load(Ordering::Relaxed);
+                if clk == 0 {
+                    continue;
+                }
+                let cpu_now = match cpu_ns_of((clk - 1) as u32 as i32) {
+                    Some(t) => t,
+                    None => continue,
+                };
+                if slots[w * WORDS].load(Ordering::Relaxed) != fam || slots[w * WORDS + 1].load(Ordering::Relaxed) != idx {
+                    continue;
+                }
+                if (cpu_now.saturating_sub(cpu0) as f64) / 1e9 <= cfg.hang_s {
+                    continue;
+                }
                 // the case cannot be interrupted: report it and leave
                 let fname = names.get(fam as usize - 1).cloned().unwrap_or_default();
                 let mut o = Json::obj();
@@ -416,7 +481,7 @@ fn spawn_hang_watchdog(cfg: &Config, names: Vec<String>, start: Instant) {
                 v.set(
                     "detail",
                     Json::str(&format!(
-                        "case {}#{} did not return within {} s (cases of this family normally take micro- to milliseconds); the code under test does not complete on this input. The run was aborted, other cases of this run are not reported.",
+                        "case {}#{} did not return after {} s of CPU time consumed by its worker thread (cases of this family normally take micro- to milliseconds, the largest ones seconds); the code under test does not complete on this input. The run was aborted, other cases of this run are not reported.",
                         fname, idx, cfg.hang_s
                     )),
                 );
@@ -489,9 +554,11 @@ pub fn run(cfg: &Config, families: &[Box<dyn Family>]) -> Outcome {
                 let builder = std::thread::Builder::new().stack_size(256 << 20).name(format!("worker-{}", worker));
                 let _ = builder.spawn_scoped(s, move || {
                     let w = (worker % SLOTS) * WORDS;
+                    register_worker_clock(worker % SLOTS);
                     let mark = |idx: u64| {
                         slots[w + 1].store(idx, Ordering::Relaxed);
                         slots[w + 2].store(start.elapsed().as_millis() as u64, Ordering::Relaxed);
+                        slots[w + 3].store(own_cpu_ns(), Ordering::Relaxed);
                         slots[w].store(fam_ord as u64 + 1, Ordering::Relaxed);
                     };
                     let clear = || slots[w].store(0, Ordering::Relaxed);
